@@ -304,3 +304,24 @@ Theorem C10_nothing_of_closed_session_later : forall s before mid after evs r,
   Forall (fun o => ~ tx_of r o) (snd (run Fixed (close_steps s before mid after) evs)).
 Proof. exact nothing_of_closed_session_later. Qed.
 Print Assumptions C10_nothing_of_closed_session_later.
+
+(* ---- the out queue of a driver object across close / reconnect (C10/DriverClose.v, variant FreshQueues = the code) ---- *)
+(* For every history of connect / send_packet / close / comm-thread activity on ONE driver object — sends to the closed
+   object and before the first connect included —: every frame transmitted in session n carries a packet that was handed to
+   send_packet during session n while the driver was open.  (A packet put after close() sits in the abandoned queue.) *)
+Theorem C10_session_frames_are_session_sends : forall ops, frames_ok (qrun FreshQueues qinit ops).
+Proof. exact session_frames_from_init. Qed.
+Print Assumptions C10_session_frames_are_session_sends.
+
+Theorem C10_session_frames_invariant : forall ops s, frames_ok s -> queue_ok s -> frames_ok (qrun FreshQueues s ops).
+Proof. exact session_frames_are_session_sends. Qed.
+Print Assumptions C10_session_frames_invariant.
+
+(* keeping the queue object over a reconnect (seeded C10-m) is refuted: connect, send 1, close, send 2, connect -> packet 2,
+   handed to the closed driver, is transmitted in session 2 *)
+Theorem C10_kept_queue_refuted :
+  let ops := [QConnect; QSend 1; QPump; QClose; QSend 2; QConnect; QPump] in
+  q_frames (qrun KeptQueues qinit ops) = [(2, 2, None); (1, 1, Some 1)] /\ ~ frames_ok (qrun KeptQueues qinit ops) /\
+  q_frames (qrun FreshQueues qinit ops) = [(1, 1, Some 1)].
+Proof. exact kept_queue_refuted. Qed.
+Print Assumptions C10_kept_queue_refuted.
